@@ -215,7 +215,7 @@ def state_field_index(F, variant, field):
 
 
 def walk_run_arm(F, rep, variant, *, values=(), ords=(), bools=(), payload=None, ordered=True,
-                 want_calls=True, extra_hook=None, max_states=400000):
+                 want_calls=True, extra_hook=None, max_states=400000, full=False):
     """Walk the arm of `Evaluator::run` that handles State::<variant>; stops at the end of the loop
     iteration (the stack-limit check / maybe_gc) or at a return."""
     run = F.fn("<%s>::run" % EVAL)
@@ -238,6 +238,7 @@ def walk_run_arm(F, rep, variant, *, values=(), ords=(), bools=(), payload=None,
 
     m = Marker(F, body, 1, want_calls, extra_term=stop_at_loop_end)
     m.stop_on_limit = True
+    m.full = full
     w = kwalk.Walker(F, body, on_term=m.on_term, on_stmt=m.on_stmt, ordered_marks=ordered,
                      call_result=injector(F, body, values=values, ords=ords, bools=bools, state=variant,
                                           payload=payload, extra=extra_hook),
@@ -248,11 +249,12 @@ def walk_run_arm(F, rep, variant, *, values=(), ords=(), bools=(), payload=None,
 
 
 def walk_handler(F, rep, fn, *, values=(), ords=(), bools=(), env=None, ordered=True, want_calls=True,
-                 extra_hook=None, extra_term=None, max_states=400000, pure_calls=None):
+                 extra_hook=None, extra_term=None, max_states=400000, pure_calls=None, full=False):
     """Walk a `do_*` handler method (self = _1) with injected keys."""
     rep.fn(fn)
     body = fn.body
     m = Marker(F, body, 1, want_calls, extra_term=extra_term)
+    m.full = full
     w = kwalk.Walker(F, body, on_term=m.on_term, on_stmt=m.on_stmt, ordered_marks=ordered,
                      call_result=injector(F, body, values=values, ords=ords, bools=bools, extra=extra_hook),
                      want_ret=True, max_states=max_states, pure_calls=pure_calls,
